@@ -414,7 +414,7 @@ def field_types(ctx, R="R-C12-header"):
         ok = bool(facts) and off.is_const and not S.truthy(off)
         ctx.check(ok, R, f, n, "only fields declared -i are converted to integers (string fields such as sample_byte_format keep their text)",
                   "the field value is converted with int() under the condition `%s`, not only for fields declared -i: `sample_byte_format -s2 10` becomes the "
-                  "integer 10, which the decoder's test against the string '10' never matches (big-endian data decoded as little-endian)" % S.show(g)[:120])
+                  "integer 10, which the decoder's test against the string '10' never matches (big-endian data decoded as little-endian)" % S.show(g)[:120], robust=True)
 
 
 def dtype_reaches_decoder(ctx, R="R-C12-expansion"):
@@ -438,5 +438,5 @@ def dtype_reaches_decoder(ctx, R="R-C12-expansion"):
             ok = isinstance(a, ast.Name) and a.id in g.all_param_names()
             ctx.check(ok, R, g, c, "the requested dtype is handed to the SPHERE decoder (it decides the G.711 expansion)",
                       "sphere_read_signal is called with dtype %s: the decoder then expands 8-bit mu-law / A-law codes to 16 bits although a 1-byte dtype was "
-                      "requested, and a later cast wraps the expanded values" % (astq.text(a) if a is not None else "<none>"))
+                      "requested, and a later cast wraps the expanded values" % (astq.text(a) if a is not None else "<none>"), robust=True)
     ctx.need(n >= 1, R, "no call of sphere_read_signal found outside _sphere.py")
